@@ -180,6 +180,10 @@ func (a *AggregatePlan) prepare(ctx *ExecuteCtx) error {
 		if k == nil && v == nil && err == nil {
 			break
 		}
+		// values cached for the previous pair must not leak into this one
+		if ctx != nil {
+			ctx.Clear()
+		}
 		aggrKey, err := a.getAggrKey(k, v, ctx)
 		if err != nil {
 			return err
@@ -218,6 +222,11 @@ func (a *AggregatePlan) prepareBatch(ctx *ExecuteCtx) error {
 		}
 
 		for i, aggrKey := range aggrKeys {
+			// the rows of the chunk are evaluated one at a time from here on: values
+			// cached for the previous pair must not leak into this one
+			if ctx != nil {
+				ctx.Clear()
+			}
 			row, have := a.aggrMap[aggrKey]
 			if !have {
 				row, err = a.createAggrRow(kvps[i], ctx)
